@@ -81,8 +81,7 @@ inductive Pool.Reach (p0 : Pool) : Pool → Prop
 
 /-- remaining steps: the termination measure -/
 def Pool.measure (p : Pool) : Nat :=
-  2 * p.todo.length + 2 * p.q.length + (p.wpc.length - p.joined)
-  + (p.wpc.map fun w => match w with | .notStarted => 1 | _ => 0).sum
+  2 * p.todo.length + p.q.length + (p.wpc.length - p.joined) + p.wpc.countP (· == .notStarted)
 
 /-! ## Chain
 
